@@ -207,6 +207,9 @@ class PrecipitateModel (PrecipitateBase):
         #This is just to allow for particles to dissolve instead of pile up in the smallest bin
         self.RdrivingForceIndex = np.zeros(len(self.phases), dtype=np.int32)
 
+        #The table is now valid for T, so restart accumulating the temperature change since the last rebuild
+        self.dTemp = 0
+
         #Keep as separate arrays so that number of PSD classes can change within precipitate phases
         self.PSDXalpha = []
         self.PSDXbeta = []
@@ -536,7 +539,6 @@ class PrecipitateModel (PrecipitateBase):
             xEqAlpha, xEqBeta = self._createLookupBinary(T)
         else:
             xEqAlpha, xEqBeta = np.array([self.pData.xEqAlpha[self.pData.n]]), np.array([self.pData.xEqBeta[self.pData.n]])
-            self.dTemp = 0
         Y.xEqAlpha = xEqAlpha
         Y.xEqBeta = xEqBeta
         
